@@ -455,6 +455,8 @@ fn main() {
     match args[1].as_str() {
         "strategy" => cmd_strategy(&args),
         "replay" => cmd_replay(&args),
+        "builder-history" => cmd_builder_history(&args),
+        "resolver" => cmd_resolver(&args),
         _ => {
             eprintln!("unknown command");
             exit(2)
@@ -626,4 +628,236 @@ fn cmd_strategy(args: &[String]) {
         println!("{}", text);
     }
     exit(if viol.is_empty() { 0 } else { 1 });
+}
+
+
+// ---------------------------------------------------------------------------------------------
+// Counterexample finder for the builder unit (C12): short request sequences against the real
+// generic builder, compared with the property's own set algebra.  Used only to attach a concrete
+// history to a failed Verus obligation; it decides nothing.
+
+#[derive(Clone, Debug, PartialEq)]
+enum Req {
+    Add(usize),    // name index
+    Remove(usize), // datum id (may be unknown)
+    Close,
+}
+
+const NAMES: [&str; 3] = ["a", "b", "c"];
+
+#[derive(Clone, Default)]
+struct Model {
+    names: Vec<usize>, // by id
+    variants: Vec<Vec<usize>>,
+    to_add: Vec<usize>,
+    to_remove: Vec<usize>,
+}
+
+impl Model {
+    fn current(&self) -> Vec<usize> {
+        let mut v: Vec<usize> = self.variants.last().map(|l| l.iter().cloned().filter(|d| !self.to_remove.contains(d)).collect()).unwrap_or_default();
+        v.extend(self.to_add.iter().cloned());
+        v
+    }
+}
+
+fn run_history(h: &[Req], verbose: bool) -> Vec<String> {
+    use truc::record::definition::builder::generic::variant::append_data as g_append;
+    use truc::record::definition::RecordVariantId;
+    let mut b = GenericRecordDefinitionBuilder::<()>::new();
+    let mut m = Model::default();
+    let mut out = Vec::new();
+    for (step, r) in h.iter().enumerate() {
+        match r {
+            Req::Add(n) => {
+                let clash = m.current().iter().any(|d| m.names[*d] == *n);
+                let res = b.add_datum(NAMES[*n], ());
+                if verbose { println!("  add {:?} -> {:?}", NAMES[*n], res.as_ref().map(|d| idx(*d)).map_err(|_| "Err")); }
+                match res {
+                    Err(_) => if !clash { out.push(format!("step {}: add of a fresh name rejected", step)); },
+                    Ok(id) => {
+                        if clash { out.push(format!("step {}: add of a clashing name accepted", step)); }
+                        if idx(id) != m.names.len() { out.push(format!("step {}: C12 identifier {} handed out, expected fresh id {}", step, idx(id), m.names.len())); }
+                        m.names.push(*n);
+                        m.to_add.push(m.names.len() - 1);
+                        if idx(id) != m.names.len() - 1 { return out; }
+                    }
+                }
+            }
+            Req::Remove(id) => {
+                let in_last = m.variants.last().map_or(false, |l| l.contains(id));
+                let expect_ok = if in_last { !m.to_remove.contains(id) } else { m.to_add.contains(id) };
+                let res = b.remove_datum(DatumId::from(*id));
+                if verbose { println!("  remove {} -> {}", id, if res.is_ok() { "Ok" } else { "Err" }); }
+                if res.is_ok() != expect_ok {
+                    out.push(format!("step {}: C12 remove_datum({}) returned {} but the request is {}", step, id, if res.is_ok() { "Ok" } else { "Err" }, if expect_ok { "valid" } else { "invalid (absent, stale or already removed)" }));
+                }
+                if expect_ok {
+                    if in_last { m.to_remove.push(*id); } else { m.to_add.retain(|d| d != id); }
+                }
+            }
+            Req::Close => {
+                let pending = m.variants.is_empty() || !m.to_add.is_empty() || !m.to_remove.is_empty();
+                let res = b.close_record_variant_with(g_append);
+                if verbose { println!("  close -> variant {}", res); }
+                if pending {
+                    let cur = m.current();
+                    m.variants.push(cur);
+                    m.to_add.clear();
+                    m.to_remove.clear();
+                }
+                let want = m.variants.len() - 1;
+                if format!("{}", res) != format!("{}", want) {
+                    out.push(format!("step {}: C12 close returned variant {} expected {}", step, res, want));
+                }
+            }
+        }
+        // observable state
+        let cur: Vec<usize> = b.get_current_data().map(idx).collect();
+        if cur != m.current() {
+            out.push(format!("step {}: C12 current data {:?}, expected {:?} (last - removed + added)", step, cur, m.current()));
+        }
+        let mut v = 0;
+        while let Some(var) = b.get_variant(RecordVariantId::from(v)) {
+            let got: Vec<usize> = var.data().map(idx).collect();
+            if v >= m.variants.len() || got != m.variants[v] {
+                out.push(format!("step {}: C12 variant {} is {:?}, expected {:?}", step, v, got, m.variants.get(v)));
+            }
+            v += 1;
+        }
+        if v != m.variants.len() {
+            out.push(format!("step {}: C12 {} variants, expected {}", step, v, m.variants.len()));
+        }
+        for d in 0..m.names.len() {
+            match b.get_datum_definition(DatumId::from(d)) {
+                Some(def) if def.name() == NAMES[m.names[d]] && idx(def.id()) == d => {}
+                _ => out.push(format!("step {}: C12 datum {} no longer carries its identity (id/name)", step, d)),
+            }
+        }
+        for (n, name) in NAMES.iter().enumerate() {
+            let want = m.current().iter().any(|d| m.names[*d] == n);
+            if b.get_current_datum_definition_by_name(name).is_some() != want {
+                out.push(format!("step {}: C12 lookup of {:?} in the current variant disagrees", step, name));
+            }
+        }
+        if !out.is_empty() {
+            return out;
+        }
+    }
+    out
+}
+
+fn req_to_json(r: &Req) -> Value {
+    match r { Req::Add(n) => json!({"add": NAMES[*n]}), Req::Remove(d) => json!({"remove": d}), Req::Close => json!("close") }
+}
+
+fn req_from_json(v: &Value) -> Req {
+    if v == "close" { Req::Close } else if let Some(n) = v.get("add") { Req::Add(NAMES.iter().position(|x| *x == n.as_str().unwrap()).unwrap()) } else { Req::Remove(v["remove"].as_u64().unwrap() as usize) }
+}
+
+fn cmd_builder_history(args: &[String]) {
+    if let Some(p) = arg(args, "--replay") {
+        let v: Value = serde_json::from_str(&fs::read_to_string(p).unwrap()).unwrap();
+        let h: Vec<Req> = v["history"].as_array().unwrap().iter().map(req_from_json).collect();
+        println!("replaying builder history through the public API:");
+        let o = run_history(&h, true);
+        for c in &o { println!("REPLAY: violated {}", c); }
+        if o.is_empty() { println!("REPLAY: no clause violated on the current tree"); }
+        exit(if o.is_empty() { 0 } else { 1 });
+    }
+    let maxlen: usize = arg(args, "--max-len").map_or(6, |s| s.parse().unwrap());
+    let mut alphabet = vec![Req::Close];
+    for n in 0..NAMES.len() { alphabet.push(Req::Add(n)); }
+    for d in 0..4 { alphabet.push(Req::Remove(d)); }
+    let mut best: Option<(Vec<Req>, Vec<String>)> = None;
+    let mut count = 0u64;
+    let mut stack: Vec<Vec<Req>> = vec![vec![]];
+    // breadth-first: shortest failing history first
+    let mut frontier: Vec<Vec<Req>> = vec![vec![]];
+    'outer: for _len in 1..=maxlen {
+        let mut next = Vec::new();
+        for h in &frontier {
+            for r in &alphabet {
+                let mut h2 = h.clone();
+                h2.push(r.clone());
+                count += 1;
+                let o = run_history(&h2, false);
+                if !o.is_empty() {
+                    best = Some((h2, o));
+                    break 'outer;
+                }
+                next.push(h2);
+            }
+        }
+        frontier = next;
+    }
+    stack.clear();
+    let res = json!({"evaluations": count, "max_len": maxlen,
+        "violation": best.as_ref().map(|(h, o)| json!({"history": h.iter().map(req_to_json).collect::<Vec<_>>(), "clauses": o}))});
+    println!("{}", serde_json::to_string_pretty(&res).unwrap());
+    exit(if best.is_some() { 1 } else { 0 });
+}
+
+// ---------------------------------------------------------------------------------------------
+// Counterexample finder for unit native (C18): every entry point under a synthetic resolver whose
+// answers differ from the host's.
+
+struct Synth;
+impl truc::record::type_resolver::TypeResolver for Synth {
+    fn type_info<T>(&self) -> TypeInfo {
+        TypeInfo { name: format!("synth::{}", std::any::type_name::<T>()), size: std::mem::size_of::<T>() * 3 + 5, align: std::mem::align_of::<T>() * 2 }
+    }
+    fn dynamic_type_info(&self, type_name: &str) -> truc::record::type_resolver::DynamicTypeInfo {
+        truc::record::type_resolver::DynamicTypeInfo { info: TypeInfo { name: format!("dyn::{}", type_name), size: type_name.len() * 7 + 3, align: 2 }, allow_uninit: type_name.len() % 2 == 0 }
+    }
+}
+
+fn cmd_resolver(_args: &[String]) {
+    use truc::record::definition::builder::native::{DatumDefinitionOverride, NativeRecordDefinitionBuilder};
+    use truc::record::type_resolver::TypeResolver;
+    let mut out: Vec<String> = Vec::new();
+    let mut b = NativeRecordDefinitionBuilder::new(Synth);
+    let mut check = |what: &str, got: &NativeDatumDetails, name: &str, size: usize, align: usize, uninit: bool| {
+        if got.offset() != usize::MAX { out.push(format!("C18 {}: offset recorded before close is not the sentinel", what)); }
+        if got.type_name() != name { out.push(format!("C18 {}: recorded type name {:?}, resolver/override says {:?}", what, got.type_name(), name)); }
+        if got.size() != size { out.push(format!("C18 {}: recorded size {}, resolver/override says {}", what, got.size(), size)); }
+        if got.type_align() != align { out.push(format!("C18 {}: recorded alignment {}, resolver/override says {}", what, got.type_align(), align)); }
+        if got.allow_uninit() != uninit { out.push(format!("C18 {}: recorded allow_uninit {}, expected {}", what, got.allow_uninit(), uninit)); }
+    };
+    let r = Synth.type_info::<u32>();
+    let id = b.add_datum::<u32, _>("f0").unwrap();
+    check("add_datum::<u32>", b[id].details(), &r.name, r.size, r.align, false);
+    let r = Synth.type_info::<(u64, u8)>();
+    let id = b.add_datum_allow_uninit::<(u64, u8), _>("f1").unwrap();
+    check("add_datum_allow_uninit::<(u64,u8)>", b[id].details(), &r.name, r.size, r.align, true);
+    let d = Synth.dynamic_type_info("abc");
+    let id = b.add_dynamic_datum("f2", "abc").unwrap();
+    check("add_dynamic_datum(\"abc\")", b[id].details(), &d.info.name, d.info.size, d.info.align, d.allow_uninit);
+    let mut k = 3;
+    for mask in 0..16u32 {
+        let r = Synth.type_info::<Vec<()>>();
+        let ov = DatumDefinitionOverride {
+            type_name: if mask & 1 != 0 { Some("Over".to_owned()) } else { None },
+            size: if mask & 2 != 0 { Some(11) } else { None },
+            align: if mask & 4 != 0 { Some(32) } else { None },
+            allow_uninit: if mask & 8 != 0 { Some(true) } else { None },
+        };
+        let id = b.add_datum_override::<Vec<()>, _>(format!("f{}", k), ov).unwrap();
+        k += 1;
+        check(&format!("add_datum_override::<Vec<()>>(type_name:{} size:{} align:{} allow_uninit:{})", mask & 1 != 0, mask & 2 != 0, mask & 4 != 0, mask & 8 != 0),
+            b[id].details(), if mask & 1 != 0 { "Over" } else { &r.name }, if mask & 2 != 0 { 11 } else { r.size }, if mask & 4 != 0 { 32 } else { r.align }, mask & 8 != 0);
+    }
+    // copy_datum copies what was recorded, it does not resolve again
+    let mut other = NativeRecordDefinitionBuilder::new(truc::record::type_resolver::HostTypeResolver);
+    let vid = b.close_record_variant_with(append_data);
+    let src = b.get_variant_datum_definition_by_name(vid, "f1").map(|d| (d.details().type_name().to_owned(), d.details().size(), d.details().type_align(), d.details().allow_uninit()));
+    let def = b.build();
+    let f1 = def.datum_definitions().find(|d| d.name() == "f1").unwrap();
+    let id = other.copy_datum(f1).unwrap();
+    let (n, s, a, u) = src.unwrap();
+    check("copy_datum", other[id].details(), &n, s, a, u);
+    let res = json!({"violations": out});
+    println!("{}", serde_json::to_string_pretty(&res).unwrap());
+    for c in &out { println!("REPLAY: violated {}", c); }
+    exit(if out.is_empty() { 0 } else { 1 });
 }
